@@ -183,25 +183,23 @@ def _modulus_sites(f: FunctionInfo) -> List[ast.BinOp]:
 
 
 def _fold_modulus(f: FunctionInfo, expr: ast.AST, name: str, name_vars: List[str]) -> sp.Expr:
-    """value of the modulus expression for gate name `name` (handles `4*pi if name in {...} else 2*pi`,
-    a local variable holding such an expression, and dict lookups keyed by the name)"""
-    env = {"pi": sp.pi}
+    """value of the modulus expression for gate name `name` (handles `4*pi if name in {...} else 2*pi`, local variables
+    holding such an expression, and dict lookups keyed by the name): simple local assignments preceding the site are folded first"""
+    env = {"pi": sp.pi, "np.pi": sp.pi, "math.pi": sp.pi}
     for v in name_vars:
         env[v] = name
     fo = Folder(env=env)
     fo.env["np"] = Opaque("np")
     fo.env["math"] = Opaque("math")
-    e = expr
-    seen = 0
-    while isinstance(e, ast.Name) and e.id not in fo.env and seen < 4:
-        defs = [n.value for n in own_nodes(f.node) if isinstance(n, ast.Assign) and len(n.targets) == 1 and
-                isinstance(n.targets[0], ast.Name) and n.targets[0].id == e.id]
-        if len(defs) != 1:
-            break
-        e = defs[0]
-        seen += 1
+    line = getattr(expr, "lineno", 10 ** 9)
+    for n in own_nodes(f.node):
+        if isinstance(n, ast.Assign) and len(n.targets) == 1 and isinstance(n.targets[0], ast.Name) and n.lineno <= line:
+            try:
+                fo.env[n.targets[0].id] = fo.expr(n.value)
+            except (Undecidable, Raised):
+                pass
     try:
-        v = fo.expr(e)
+        v = fo.expr(expr)
     except (Undecidable, Raised) as u:
         raise AnalysisError(f"{f.ref}: modulus {norm(expr)} not foldable for {name}: {u}")
     return sp.nsimplify(v) if not isinstance(v, sp.Basic) else v
@@ -216,7 +214,7 @@ def check_periods(idx: Index, rep: Report, sets):
     for s in sites[:1]:
         n_sites += 1
         for name in sorted(sets["PARAMETERIZED_GATES"]):
-            m = _fold_modulus(f, s.right, name, ['ds["name"]', "self.name", "name"])
+            m = _fold_modulus(f, s.right, name, ["ds['name']", "do['name']", "self.name", "name"])
             _decide_period(rep, rule, f, s, name, m, "two gates that compare equal implement the same operation up to phase")
     if not sites:
         rep.info(rule, f, f.node, text="Gate.__eq__ compares parameters exactly", reason="no modulus applied")
